@@ -83,6 +83,9 @@ def view(f, c):
     if 'TFLAG' in f.variables:
         tf = np.asarray(f.variables['TFLAG'][:, 0, :])
         out['tflag'] = lib.show_list(['%d:%d' % (int(a), int(b)) for a, b in tf])
+    elif hasattr(f, 'timerange'):
+        # the record readers present their time flags through timerange(): (YYJJJ, HHMM) as stored
+        out['timerange'] = [[int(d), float(t)] for d, t in f.timerange()]
     return out
 
 
@@ -132,3 +135,80 @@ def write_with_library(c, dtype='f'):
     finally:
         if os.path.exists(path):
             os.remove(path)
+
+
+# ---- wind -------------------------------------------------------------------------------------------------
+
+def gen_wind(rng):
+    while True:
+        c = gen(rng, 'one3d')
+        if c['nx'] * c['ny'] >= 4:       # records of 4, 8 or 12 bytes are the closing / header records
+            break
+    n = c['nx'] * c['ny']
+    c['fmt'] = 'wind'
+    c['data'] = [[[camx.rand_f32_bits(rng) for _ in range(n)] for _ in range(2 * c['nz'])] for _ in c['flags']]
+    c['stag'] = rng.choice([None, 0, 1])            # None: old files with a two-word time header
+    return c
+
+
+def wind_encode(c):
+    n = c['nx'] * c['ny']
+    out = b''
+    for (d, hhmm), slabs in zip(c['flags'], c['data']):
+        if c['stag'] is None:
+            out += struct.pack('>ifii', 8, float(hhmm), d, 8)
+        else:
+            out += struct.pack('>ifiii', 12, float(hhmm), d, c['stag'], 12)
+        for sl in slabs:
+            out += struct.pack('>i', 4 * n) + struct.pack('>%dI' % n, *sl) + struct.pack('>i', 4 * n)
+        out += struct.pack('>ifi', 4, 0.0, 4)
+    return out
+
+
+def wind_line(c):
+    return 'bin wind-enc steps=' + '|'.join(
+        '%08x:%08x:%s:%s' % (f32bits(float(hhmm)), d, '_' if c['stag'] is None else '%08x' % c['stag'],
+                             ','.join(camx.hexwords(sl) for sl in slabs))
+        for (d, hhmm), slabs in zip(c['flags'], c['data']))
+
+
+def wind_open(c, path, which):
+    cls = _cls('wind.Memmap.wind' if which == 'memmap' else 'wind.Read.wind')
+    return cls(path, c['ny'], c['nx'])
+
+
+def wind_view(f, c):
+    nt, nz = len(f.dimensions['TSTEP']), len(f.dimensions['LAY'])
+    out = dict(nt=float(nt), nz=float(nz), vars={})
+    for k in ('U', 'V'):
+        arr = np.ascontiguousarray(np.asarray(f.variables[k][:]).astype('>f4')).view('>u4')
+        out['vars'][k] = arr.reshape(-1).tolist()
+        out.setdefault('shapes', []).append(list(np.shape(f.variables[k])))
+    if 'TFLAG' in f.variables:
+        tf = np.asarray(f.variables['TFLAG'][:, 0, :])
+        out['tflag'] = [[int(a), int(b)] for a, b in tf]
+    elif hasattr(f, 'timerange'):
+        out['timerange'] = [[int(d), float(t)] for d, t in f.timerange()]
+    return out
+
+
+def wind_build(c, dtype='f'):
+    import PseudoNetCDF as pnc
+    nt, nz, ny, nx = len(c['flags']), c['nz'], c['ny'], c['nx']
+    f = pnc.PseudoNetCDFFile()
+    f.createDimension('TSTEP', nt).setunlimited(True)
+    f.createDimension('LAY', nz)
+    f.createDimension('ROW', ny)
+    f.createDimension('COL', nx)
+    f.createDimension('VAR', 2)
+    f.createDimension('DATE-TIME', 2)
+    f.LSTAGGER = np.array(c['stag'] if c['stag'] is not None else 0, dtype='>i')
+    tf = f.createVariable('TFLAG', 'i', ('TSTEP', 'VAR', 'DATE-TIME'))
+    for t, (d, hhmm) in enumerate(c['flags']):
+        tf[t, :, 0] = d + (2000 if d // 1000 < 70 else 1900) * 1000
+        tf[t, :, 1] = hhmm * 100
+    bits = np.array(c['data'], dtype='>u4').view('>f4').reshape(nt, nz, 2, ny, nx)
+    for vi, k in enumerate(('U', 'V')):
+        v = f.createVariable(k, dtype, ('TSTEP', 'LAY', 'ROW', 'COL'))
+        v[:] = bits[:, :, vi]
+    return f
